@@ -1,6 +1,7 @@
 /-
 C03.4, concrete side, definitions: the family of ranges behind the events that `AddLocation` and
-`Rearrange` generate for a subnet list of one map, and the well-formedness conditions W0, W1, W3.
+`Rearrange` generate for a subnet list of one map (`famOf`; the ranges the sweep pushes: `famF`, the
+marker events: `markersOf`), and the well-formedness conditions W0, W1 (`SubsWF`).
 -/
 import DnsVerif.Proofs.LpmSweep
 import DnsVerif.Proofs.Lpm
@@ -49,11 +50,13 @@ def famF (S : List SubnetDecl) : List Rng :=
 def markersOf (S : List SubnetDecl) : List GEv :=
   if straddle S then ((famOf S).filter isUpper).map (fun R => ⟨R, .start⟩) else []
 
-/-- W0, W1 and the rest of W3 for the subnets of one map.
-History: until the repair "only ::/0 and 0.0.0.0/0 are default routes for the rearranger" a condition W2
-was needed (network `::` only as `::/0`, network `::ffff:0:0` only as `0.0.0.0/0`), see `SubsWFOld`;
-until the repair "an IPv6 range that contains the IPv4 range continues after it" the full W3 (no block
-other than `::/0` and `0.0.0.0/0` contains `::ffff:0:0/96`), see `SubsWFW3`. -/
+/-- W0 and W1 for the subnets of one map: nothing else is needed.
+History: until commit 828f037 ("only ::/0 and 0.0.0.0/0 are default routes for the rearranger") a
+condition W2 was needed (network `::` only as `::/0`, network `::ffff:0:0` only as `0.0.0.0/0`), see
+`SubsWFOld`; until commits 277e200 ("an IPv6 range that contains the IPv4 range continues after it")
+and d84245a (end points ordered innermost first; an end point replaces its predecessor in the
+squash) also W3 (no block other than `::/0` and `0.0.0.0/0` contains `::ffff:0:0/96`), see
+`SubsWFW3`. -/
 structure SubsWF (S : List SubnetDecl) : Prop where
   ones_le : ∀ s ∈ S, s.ones ≤ 128
   net_lt : ∀ s ∈ S, s.net < 2 ^ 128
@@ -61,15 +64,9 @@ structure SubsWF (S : List SubnetDecl) : Prop where
   aligned : ∀ s ∈ S, s.net % 2 ^ (128 - s.ones) = 0
   /-- W1: no two subnets with the same (network, length) -/
   w1 : S.Pairwise fun s t => ¬ (s.net = t.net ∧ s.ones = t.ones)
-  /-- W3′ (what is left of W3): a block that starts below `::ffff:0:0` and ends exactly where the
-  IPv4 range ends — with W0 these are `::/80`, `::8000:0:0/81`, `::c000:0:0/82`, …, `::fffe:0:0/95` —
-  only together with a declared `0.0.0.0/0`. (Otherwise the end point of the implicit IPv4 null range,
-  mask length 0, is sorted after the end point of the block that encloses it.) -/
-  w3 : ∀ s ∈ S, s.net < firstIPv4 → s.net + 2 ^ (128 - s.ones) = afterIPv4 →
-    ∃ t ∈ S, t.net = firstIPv4 ∧ t.ones = 96
   loc_len : ∀ s ∈ S, s.loc.length = 2
 
-/-- the former well-formedness: W0, W1 and the full W3 -/
+/-- the former well-formedness: W0, W1 and W3 -/
 structure SubsWFW3 (S : List SubnetDecl) : Prop where
   ones_le : ∀ s ∈ S, s.ones ≤ 128
   net_lt : ∀ s ∈ S, s.net < 2 ^ 128
@@ -82,17 +79,8 @@ structure SubsWFW3 (S : List SubnetDecl) : Prop where
     ¬ (s.net ≤ firstIPv4 ∧ afterIPv4 ≤ s.net + 2 ^ (128 - s.ones))
   loc_len : ∀ s ∈ S, s.loc.length = 2
 
-theorem SubsWFW3.toWF {S : List SubnetDecl} (h : SubsWFW3 S) : SubsWF S := by
-  refine ⟨h.ones_le, h.net_lt, h.aligned, h.w1, ?_, h.loc_len⟩
-  intro s hs hlt hend
-  exfalso
-  refine h.w3 s hs ?_ ?_ ⟨Nat.le_of_lt hlt, Nat.le_of_eq hend.symm⟩
-  · rintro ⟨h0, ho⟩
-    rw [h0, ho] at hend
-    exact absurd hend (by decide)
-  · rintro ⟨h4, _⟩
-    rw [h4] at hlt
-    exact Nat.lt_irrefl _ hlt
+theorem SubsWFW3.toWF {S : List SubnetDecl} (h : SubsWFW3 S) : SubsWF S :=
+  ⟨h.ones_le, h.net_lt, h.aligned, h.w1, h.loc_len⟩
 
 /-- the oldest, strongest well-formedness: W0–W3 with W2 -/
 structure SubsWFOld (S : List SubnetDecl) : Prop where
